@@ -77,8 +77,7 @@ def W9_pairing(rep, flow: Flow):
                 rep.ok("W9", 1, nontrivial=("path", path.describe()), sample=f"loop path [{path.describe()}]: appends {counts}")
     if not checked:
         raise AnalysisError("MUBInfo.__init__: no loop appending to two lists found (anchor vanished)")
-    # (3) the public wrappers return the lists unpermuted: the returned list object is the accessor's list
-    # (or an order-preserving copy of it)
+    # (3) the public wrappers return the accessor's lists themselves, or an order-preserving conversion of them
     for fq, field in (("mub_circuits.get_mub_circuits", "circuits"), ("mub_circuits.get_mubs", "bases")):
         f = prog.func(fq)
         for r in flow.paths(fq):
@@ -88,12 +87,28 @@ def W9_pairing(rep, flow: Flow):
             if o is None or o.kind != "list":
                 rep.finding("W9", f"{fq}:notlist", f"{f.module.rel} {f.qualname}: does not return a list ({r.describe()!r:.80})")
                 continue
-            perm = o.meta.get("permuted")
+            rec_lists = set()
+            for ho in r.heap.values():
+                if ho.kind == "record" and ho.cls is not None and ho.cls.name == "MUBInfo":
+                    for v in ho.fields.values():
+                        if isinstance(v, Ref) and r.heap[v.oid].kind == "list":
+                            rec_lists.add(v.oid)
+            perm = o.meta.get("permuted") or o.meta.get("filtered")
             srcs = _order_sources(f)
+            same = o.oid in rec_lists
+            conv = o.meta.get("identity_conv_of")
+            conv_ok = conv is not None and any(vkey(conv) == vkey(Interp_sym(r, x)) for x in rec_lists)
             if perm or srcs:
-                rep.finding("W9", f"{fq}:order", f"{f.module.rel} {f.qualname}: the returned list of {field} is reordered ({perm or srcs}); it no longer lines up index by index with the other list")
+                rep.finding("W9", f"{fq}:order", f"{f.module.rel} {f.qualname}: the returned list of {field} is reordered or filtered ({perm or srcs}); it no longer lines up index by index with the other list")
+            elif not (same or conv_ok):
+                rep.finding("W9", f"{fq}:rebuilt", f"{f.module.rel} {f.qualname}: the returned list of {field} is not the record's list nor an order-preserving copy of it (allocated at {o.site})")
             else:
                 rep.ok("W9", 1, nontrivial=fq, sample=f"{f.qualname}: returns the accessor's list of {field} in file order")
+
+
+def Interp_sym(r, oid):
+    o = r.heap[oid]
+    return Sym("obj", o.kind, o.oid)
 
 
 ORDER_CHANGERS = {"reversed", "sorted", "shuffle", "sort", "reverse", "set", "frozenset"}
